@@ -19,6 +19,10 @@ const WORDS: &[&str] = &[
     // near misses of the names the encoder treats specially
     "Job-Id", "JOB-ID", "PRINTER-URI", "Printer-Uri", "Attributes-Charset", "ATTRIBUTES-NATURAL-LANGUAGE", "Job-Uri",
     "job-id ", "job-ids", "xjob-id", "printer-uri/", "attributes-charse", "job_id",
+    // names that extend (or are extended by) the specially ordered ones
+    "printer-uri-supported", "job-uri-x", "attributes-charset-supported", "attributes-natural-language-x", "job-id-attribute", "job", "printer",
+    // keywords with a meaning of their own
+    "all", "none", "job-template", "printer-description", "media-col-database",
 ];
 
 pub fn gen_len(r: &mut Rng, lim: &Limits) -> usize {
@@ -306,6 +310,21 @@ pub fn gen_payload(r: &mut Rng) -> Vec<u8> {
             r.bytes(n)
         }
     }
+}
+
+/// what a message reads back as after `to_bytes`: attributes by name, and - RFC 8011 wants the operation
+/// attributes first, so the encoder writes the first operation group before every other group (an empty one
+/// when the message has none) - the first operation group moved to the front; nothing else may change
+pub fn wire_normal_form(m: &Msg) -> Msg {
+    let mut c = canonical(m);
+    match c.groups.iter().position(|g| g.0 == 1) {
+        Some(i) => {
+            let g = c.groups.remove(i);
+            c.groups.insert(0, g);
+        }
+        None => c.groups.insert(0, (1, vec![])),
+    }
+    c
 }
 
 pub fn canonical(m: &Msg) -> Msg {
